@@ -527,3 +527,32 @@ def fold_str_expr(e, env):
             return go(x.body) if go(x.test) else go(x.orelse)
         raise NotConstant(U(x)[:60])
     return go(e)
+
+
+def worklist_walk(fn):
+    """Recognise the iterative form of a graph walk:   work = [start] ; while work: cur = work.pop() ; ...
+    Returns {'work', 'start', 'cur', 'loop', 'pushes': [(expr, guards)], 'skips': [guards of every continue]} or None.
+    Guards are sets of (text, polarity) inside the loop body (canonical control form: 'if c: continue' has become 'if not c: rest')."""
+    from .model import guard_texts, walk_body, call_attr
+    from .util import find_calls
+    for lp in [s_ for s_ in fn.body if isinstance(s_, ast.While)]:
+        if not isinstance(lp.test, ast.Name) or lp.orelse:
+            continue
+        work = lp.test.id
+        init = [a for a in fn.body if isinstance(a, ast.Assign) and len(a.targets) == 1 and U(a.targets[0]) == work]
+        if len(init) != 1 or not lp.body:
+            continue
+        iv = init[0].value
+        start = U(iv.elts[0]) if isinstance(iv, (ast.List, ast.Tuple)) and len(iv.elts) == 1 else U(iv.args[0]) if isinstance(iv, ast.Call) and U(iv.func) in ("list", "deque", "collections.deque") and len(iv.args) == 1 else None
+        first = lp.body[0]
+        if not (isinstance(first, ast.Assign) and isinstance(first.value, ast.Call) and call_attr(first.value) in ("pop", "popleft") and U(first.value.func.value) == work
+                and len(first.value.args) <= 1 and isinstance(first.targets[0], ast.Name)):
+            continue
+        cur = first.targets[0].id
+        pushes = []
+        for x in find_calls(lp.body, attr=("extend", "append", "extendleft", "appendleft")):
+            if U(x.func.value) == work and len(x.args) == 1:
+                pushes.append((x.args[0], set(guard_texts(x, stop=lp)), x))
+        skips = [set(guard_texts(x, stop=lp)) for x in walk_body(lp.body) if isinstance(x, (ast.Continue, ast.Break, ast.Return))]
+        return {"work": work, "start": start, "cur": cur, "loop": lp, "pushes": pushes, "skips": skips}
+    return None
